@@ -87,3 +87,12 @@ package codegen
 //@   ensures [C15] drop-lower: forall x int :: minIntSize && in_rng(prim_name(result0), x) ==> (lower_ok(*minimum, *exclusiveMinimum, x) <==> lower_ok(old(*minimum), old(*exclusiveMinimum), x))
 //@   ensures [C15] drop-upper: forall x int :: minIntSize && in_rng(prim_name(result0), x) ==> (upper_ok(*maximum, *exclusiveMaximum, x) <==> upper_ok(old(*maximum), old(*exclusiveMaximum), x))
 //@   ensures [C15,C03] pointer: (pointer <==> dyn(result0) == "*codegen.PointerType") && (!pointer ==> dyn(result0) == "codegen.PrimitiveType")
+
+// Deliberate error drops (C18 error-propagation obligations): writes into an
+// in-memory strings.Builder cannot fail.
+//@ func (*Emitter).Newline
+//@   errdrop WriteRune: strings.Builder writes never fail
+//@ func (*Emitter).Printf
+//@   errdrop fmt.Fprintf: the writer is the emitter's strings.Builder
+//@ func (*Emitter).checkIndent
+//@   errdrop WriteRune: strings.Builder writes never fail
